@@ -916,7 +916,11 @@ fn public_id(input: &str) -> IResult<&str, &str> {
 fn ns_att_name(input: &str) -> IResult<&str, model::AttributeName<'_>> {
     alt((
         map(preceded(tag("xmlns:"), ncname), model::AttributeName::from), // [2] PrefixedAttName
-        map(tag("xmlns"), |_| model::AttributeName::default()),           // [3] DefaultAttName
+        // [3] DefaultAttName: the whole name, not the beginning of a longer one ("xmlnsx", "xmlns2:a" are ordinary names)
+        map(
+            verify(recognize(ncname), |v: &str| v == "xmlns"),
+            |_| model::AttributeName::default(),
+        ),
     ))(input)
 }
 
